@@ -235,6 +235,7 @@ pub struct Gen<'a> {
     pub bmca_since_slave_only: bool,
     pub meas: MeasOracle,
     pub frames: super::oracle_frames::FrameOracle,
+    pub view: super::oracle_view::ViewOracle,
     pub ex: InstExec,
     pub out: &'a mut Out,
     pub w: World,
@@ -256,6 +257,7 @@ impl<'a> Gen<'a> {
         {
             let before: Vec<String> = self.w.ports.iter().map(|p| p.state.clone()).collect();
             self.frames.check(self.out, &before, &line, &obs);
+            self.view.check(self.out, &before, &line, &obs);
         }
         let kind: String = {
             let ws: Vec<&str> = line.split_whitespace().collect();
@@ -336,7 +338,7 @@ impl<'a> Gen<'a> {
             }
             let st = before[k - 1].as_str();
             if let Some(r) = rest.strip_prefix("send ") {
-                let hexs = r.split_whitespace().last().unwrap_or("");
+                let hexs = r.split_whitespace().skip(1).find(|t| !t.contains('=')).unwrap_or("");
                 let ty = u8::from_str_radix(&hexs.get(1..2).unwrap_or("f"), 16).unwrap_or(15);
                 let name = match ty { 0x0 => "Sync", 0x8 => "Follow_Up", 0x9 => "Delay_Resp", 0xb => "Announce", 0x1 => "Delay_Req", _ => "" };
                 if matches!(ty, 0x0 | 0x8 | 0x9 | 0xb) && st != "Master" {
@@ -604,10 +606,6 @@ impl<'a> Gen<'a> {
                     4 => f.suffix.extend(tlv(*rng.pick(&[0x0001u16, 0x0003, 0x8000, 0x8008, 0x2004, 0x3fff]), &rng.bytes(2 * rng.below(6) as usize))),
                     _ => f.suffix.extend(tlv(0x4000, &[])),
                 }
-            }
-            if f.suffix.len() >= 4 && f.suffix[f.suffix.len() - 4..][2..] == [0, 0] {
-                // never end on a zero-length TLV (rejected by the parser): pad
-                f.suffix.extend(tlv(0x8008, &[0, 0]));
             }
         }
         let mut class = "announce";
@@ -1056,6 +1054,7 @@ pub fn new_gen(out: &mut Out) -> Gen<'_> {
         slave_only_now: false,
         bmca_since_slave_only: false,
         frames: Default::default(),
+        view: Default::default(),
         meas: MeasOracle::default(),
         ex: InstExec::new(),
         out,
@@ -1179,6 +1178,102 @@ impl<'a> Gen<'a> {
     }
 }
 
+impl<'a> Gen<'a> {
+    /// the current parent (index into masters), if it is one of ours
+    fn parent_idx(&self) -> Option<usize> {
+        self.w.masters.iter().position(|m| format!("{}:{}", clock_hex(&m.clock), m.port) == self.w.parent)
+    }
+
+    /// the parent announces on the slave port with fresh contents: every flag combination, utc offsets, time sources,
+    /// qualities, stepsRemoved over the whole range
+    fn parent_announce(&mut self, rng: &Prng) {
+        let Some(k) = self.w.ports.iter().position(|p| p.state == "Slave").map(|i| i + 1) else { return self.announce_burst(rng) };
+        let Some(mi) = self.parent_idx() else { return self.announce_burst(rng) };
+        if rng.chance(2, 3) {
+            let c = self.w.masters[mi].clock;
+            let mut a = random_ann(rng, c);
+            a.steps = match rng.below(8) {
+                0 => 0,
+                1 => 254,
+                2 => 253,
+                3 => rng.below(255) as u16,
+                4 => 255,
+                5 => 65534,
+                _ => rng.below(6) as u16,
+            };
+            a.utc = rng.next_u64() as i16;
+            a.time_source = rng.next_u64() as u8;
+            a.acc = rng.next_u64() as u8;
+            a.class = rng.next_u64() as u8;
+            a.var = rng.next_u64() as u16;
+            self.w.masters[mi].ann = a;
+            self.w.masters[mi].flags1 = rng.next_u64() as u8 & 0x3f;
+        }
+        self.w.masters[mi].seq = self.w.masters[mi].seq.wrapping_add(1);
+        let m = self.w.masters[mi].clone();
+        let mut f = self.base_frame(rng, 0xb, m.clock, m.port, m.seq);
+        f.flags[1] = m.flags1;
+        f.set_announce(&m.ann);
+        self.out.count("gen.parent-announce");
+        self.emit(format!("P{k} GEN {}", hex(&f.bytes())));
+    }
+
+    pub fn view_step(&mut self, rng: &Prng) {
+        let np = self.w.ports.len();
+        match rng.below(20) {
+            0..=6 => self.parent_announce(rng),
+            7..=11 => {
+                // announce timers on every Master port
+                for k in 1..=np {
+                    if self.dead {
+                        return;
+                    }
+                    if self.w.ports[k - 1].state == "Master" || rng.chance(1, 6) {
+                        self.emit(format!("P{k} TMR ann 1"));
+                    }
+                }
+            }
+            12 | 13 => self.bmca_op(rng),
+            14 => self.announce_burst(rng),              // another master shows up / parent change
+            15 => {
+                // the parent falls silent on the slave port: receipt timeout
+                let k = self.w.ports.iter().position(|p| p.state == "Slave").map(|i| i + 1).unwrap_or(1 + rng.below(np as u64) as usize);
+                self.emit(format!("P{k} TMR rcpt"));
+            }
+            16 => {
+                self.emit(format!("SET quality {} {} {}", rng.next_u64() as u8, *rng.pick(&[0x20u8, 0xfe, 0x31, 0x17]), rng.next_u64() as u16));
+                if !self.dead && rng.chance(1, 2) {
+                    self.bmca_op(rng);
+                }
+            }
+            17 => self.announce_op(rng),
+            _ => self.step(rng),
+        }
+    }
+}
+
+/// C11: boundary clocks whose parents keep changing what they announce; take-overs; quality changes
+pub fn generate_view(out: &mut Out, rng: &Prng, thorough: bool) {
+    let mut g = new_gen(out);
+    let scenarios = if thorough { 5000 } else { 300 };
+    for _ in 0..scenarios {
+        g.start_scenario(rng);
+        // get a slave port quickly
+        for _ in 0..3 {
+            if !g.dead && !g.w.ports.iter().any(|p| p.state == "Slave") {
+                g.announce_burst(rng);
+            }
+        }
+        let len = 30 + rng.below(if thorough { 200 } else { 90 }) as usize;
+        while !g.dead && g.ops_in_scenario < len {
+            g.view_step(rng);
+        }
+        g.out.count("scenario");
+    }
+    let n = g.view.announces_checked;
+    g.out.add("c11.announces-checked", n);
+}
+
 /// C10: master-side stream. Sequence number wrap-around runs plus dense master traffic with edge timestamps.
 pub fn generate_master(out: &mut Out, rng: &Prng, thorough: bool) {
     let mut g = new_gen(out);
@@ -1242,6 +1337,7 @@ pub fn generate(out: &mut Out, rng: &Prng, thorough: bool) {
         slave_only_now: false,
         bmca_since_slave_only: false,
         frames: Default::default(),
+        view: Default::default(),
         meas: MeasOracle::default(),
         ex: InstExec::new(),
         out,
